@@ -17,7 +17,7 @@ from vf.rcfg import RCFG
 RULE = (
     "G2 modelled program p + a drawn composition of rewrites: move subroutine bodies (before/after main, "
     "reordered), rename labels (incl. names that start with opcode names), comments/blank lines/indentation/"
-    "tabs, integer spelling dec<->hex<->octal, named<->numeric TypeEnum/OnCompletion constants, int<->pushint, "
+    "tabs, integer spelling dec<->hex<->octal (int/pushint values, gtxn indices, scratch slots, intc indices, intcblock values, stack depths), named<->numeric TypeEnum/OnCompletion constants, int<->pushint, "
     "entry-block intcblock + intc/intc_k, stack-neutral padding at statement boundaries. Blocks correspond "
     "through IR item identity; for every corresponding block the contexts (incl. the 16 per-index contexts) "
     "must be equal and for every detector the reported paths must map onto each other in the same order. "
@@ -101,6 +101,13 @@ def apply_rewrites(case):
             if it[0] == "I" and it[1] in ("int", "pushint") and _is_plain_number(it[2][0]):
                 v = parse_int_tok(it[2][0])
                 it[2] = [spell_int(v, (choices[1] + i) % 3)]
+                applied.append("spelling")
+            elif it[0] == "I" and it[1] in ("gtxn", "gtxna", "load", "store", "intc", "dig", "cover", "uncover") and it[2] and _is_plain_number(str(it[2][0])):
+                # the other numeric immediates (group index of gtxn, scratch slot, constant index, stack depth)
+                it[2] = [spell_int(parse_int_tok(str(it[2][0])), (choices[1] + i) % 3)] + list(it[2][1:])
+                applied.append("spelling")
+            elif it[0] == "I" and it[1] == "intcblock":
+                it[2] = [spell_int(parse_int_tok(str(x)), (choices[1] + i + k_) % 3) if _is_plain_number(str(x)) else x for k_, x in enumerate(it[2])]
                 applied.append("spelling")
     # ---- int <-> pushint
     if "pushint" in rw and ver >= 3:
